@@ -21,6 +21,15 @@
 import SA.Proofs.TlsConfig
 namespace SA.TlsConfig
 
+/-! ## 0. the trust anchors a pool starts from (used by every statement about RootCAs / ClientCAs below) -/
+
+/-- the shape the model was written against: the pool assigned to RootCAs / ClientCAs is a function-local
+    `x509.NewCertPool()` and receives only the PEM returned by `m.GetCaCertificates()` -/
+theorem C05_ca_pool_shape :
+    SA.Gen.caPoolStartsEmpty = true ∧ SA.Gen.caPoolInit = ["x509.NewCertPool()"] ∧
+    SA.Gen.caPoolPemFrom = ["m.GetCaCertificates()"] ∧ poolSeed = [] := by
+  decide
+
 /-! ## 1. verification stays on unless the user chose `insecure` -/
 
 /-- the inventory of InsecureSkipVerify sites is what the model was written against: the option
@@ -75,7 +84,7 @@ theorem C05_verify_on_unless_insecure (k : Kind) (hk : k ≠ .stdioTls) (o : Opt
   | ok c =>
     simp only [hc, hf] at h
     cases h
-    exact (client_ok hc).2.1
+    exact (client_ok C05_ca_pool_shape.2.2.2 hc).2.1
 
 /-- the documented exception: stdio+tls never verifies -/
 theorem C05_stdio_exception (o : Opts) (conf : TlsCfg)
@@ -99,7 +108,95 @@ theorem C05_root_pool_is_configured_ca (k : Kind) (o : Opts) (conf : TlsCfg)
   | panic => simp [hc] at h
   | ok c =>
     simp only [hc] at h
-    split at h <;> cases h <;> exact (client_ok hc).1
+    split at h <;> cases h <;> exact (client_ok C05_ca_pool_shape.2.2.2 hc).1
+
+
+/-! ## 1b. which trust anchors end up in the pools handed to crypto/tls
+
+    `RootCAs` (what a verifying client accepts) and `ClientCAs` (what a server demanding client certificates
+    admits) must hold the configured CA certificates and NOTHING else: not the operating system's roots, not a
+    process-wide or cached pool, not the CAs of another configuration object, not the endpoint's own leaf.  The
+    model's pool is `poolSeed ++ configured`, where `poolSeed` comes from the regenerated shape of
+    `Config.addCaCertificates` (SA.Gen.caPool…): the theorems below hold because the seed is empty. -/
+
+/-- the CA certificates the `ca-certificate[-file]` option names (specification side: read off the option) -/
+def configuredAnchors (o : Opts) : List String :=
+  match readSrc o.ca .cafile with
+  | .ok (.cas ids) => ids
+  | _ => []
+
+/-- what the CA option denotes is exactly the configured certificates: a pool exists iff at least one CA
+    certificate is configured, and then it lists those certificates and no other -/
+theorem C05_ca_pool_exact (o : Opts) :
+    (∀ pool, caPool o = some pool → pool = configuredAnchors o ∧ pool ≠ []) ∧
+    (caPool o = none → configuredAnchors o = [] ∨ ∃ e, readSrc o.ca .cafile = .err e) := by
+  unfold caPool configuredAnchors
+  cases hr : readSrc o.ca .cafile with
+  | err e => simp
+  | panic => simp
+  | ok b =>
+    cases b with
+    | cas ids =>
+      cases ids with
+      | nil => simp [parseCAs]
+      | cons a as => simp [parseCAs]
+    | nil => simp [parseCAs]
+    | empty => simp [parseCAs]
+    | garbage => simp [parseCAs]
+    | cert id => simp [parseCAs]
+    | key f e => simp [parseCAs]
+
+/-- **the pools hold exactly the configured anchors**: in every configuration that loads (plain, client, server),
+    RootCAs and ClientCAs are the same pool; when a pool is set it lists precisely the configured CA certificates;
+    when none is set no CA certificate is configured (crypto/tls then verifies against the system store, its
+    documented default). -/
+theorem C05_pools_exactly_configured (o : Opts) (c : TlsCfg) (g : Bool)
+    (h : configGetTlsConfig o = .ok c ∨ clientGetTlsConfig o = .ok c ∨ serverGetTlsConfig g o = .ok c) :
+    c.clientCAs = caPool o ∧
+    (∀ pool, c.clientCAs = some pool → pool = configuredAnchors o ∧ pool ≠ []) ∧
+    (c.clientCAs = none → configuredAnchors o = []) ∧
+    ((configGetTlsConfig o = .ok c ∨ clientGetTlsConfig o = .ok c) → c.rootCAs = c.clientCAs) := by
+  have hex := C05_ca_pool_exact o
+  have hload : ∃ c0, configGetTlsConfig o = .ok c0 := by
+    rcases h with h | h | h
+    · exact ⟨c, h⟩
+    · obtain ⟨_, _, _, c0, h0, _⟩ := client_ok C05_ca_pool_shape.2.2.2 h; exact ⟨c0, h0⟩
+    · obtain ⟨c0, h0, _⟩ := server_ok C05_ca_pool_shape.2.2.2 h; exact ⟨c0, h0⟩
+  have hnoerr : ∀ e, readSrc o.ca .cafile ≠ .err e := by
+    intro e he
+    obtain ⟨c0, h0⟩ := hload
+    unfold configGetTlsConfig at h0
+    cases hk : getX509KeyPair o with
+    | err e' => simp [hk] at h0
+    | panic => simp [hk] at h0
+    | ok crt =>
+      simp only [hk] at h0
+      unfold addCaCertificates addCaCertificatesFrom at h0
+      simp [he] at h0
+  have hcca : c.clientCAs = caPool o := by
+    rcases h with h | h | h
+    · exact (config_ok C05_ca_pool_shape.2.2.2 h).2.1
+    · obtain ⟨_, _, _, c0, h0, _⟩ := client_ok C05_ca_pool_shape.2.2.2 h
+      unfold clientGetTlsConfig at h
+      simp only [h0] at h
+      have := (config_ok C05_ca_pool_shape.2.2.2 h0).2.1
+      split at h <;> cases h <;> exact this
+    · obtain ⟨_, _, _, hc, _⟩ := server_ok C05_ca_pool_shape.2.2.2 h; exact hc
+  refine ⟨hcca, ?_, ?_, ?_⟩
+  · intro pool hp; exact hex.1 pool (hcca ▸ hp)
+  · intro hn
+    rcases hex.2 (hcca ▸ hn) with h0 | ⟨e, he⟩
+    · exact h0
+    · exact absurd he (hnoerr e)
+  · intro h'
+    rcases h' with h' | h'
+    · rw [(config_ok C05_ca_pool_shape.2.2.2 h').1, (config_ok C05_ca_pool_shape.2.2.2 h').2.1]
+    · rw [(client_ok C05_ca_pool_shape.2.2.2 h').1, hcca]
+
+/-- the contract of crypto/x509 chain building this section relies on (a hypothesis, never an axiom): a chain
+    accepted against a pool ends in ONE certificate of that pool -/
+def Anchored (X : X509) : Prop :=
+  ∀ pool c, X.chains (some pool) c = true → ∃ a, a ∈ pool ∧ X.chains (some [a]) c = true
 
 /-! ## 2. the expected server name is the upstream host name, without the port -/
 
@@ -148,7 +245,7 @@ theorem C05_client_cert_required (o : Opts) (conf : TlsCfg)
     (o.flag = true → conf.clientAuth = .requireAndVerifyClientCert ∧ conf.clientCAs = caPool o) ∧
     (o.flag = false → conf.clientAuth = .noClientCert) := by
   have hg : SA.Gen.serverAuthGuardErrNil = true := by decide
-  obtain ⟨c0, _, _, hca, hauth⟩ := server_ok h
+  obtain ⟨c0, _, _, hca, hauth⟩ := server_ok C05_ca_pool_shape.2.2.2 h
   rw [hg] at hauth
   constructor
   · intro hf; simp [hauth, hf, hca]
@@ -246,8 +343,8 @@ theorem C05_auth_complete (X : X509) (k : Kind) (hk : k ≠ .stdioTls) (h p r : 
     cases k <;> first | exact absurd rfl hk | decide
   have hg : genFacts.guardErrNil = true := by decide
   have hname := C05_expected_name k hk h p r hw
-  have hcc := client_ok hc
-  have hsc := config_ok hs
+  have hcc := client_ok C05_ca_pool_shape.2.2.2 hc
+  have hsc := config_ok C05_ca_pool_shape.2.2.2 hs
   unfold established
   simp only [clientCfgFor, hc, hf, serverGetTlsConfig, hs, hg, Bool.true_and]
   cases hfl : so.flag with
@@ -359,6 +456,115 @@ example : established refX509 genFacts .startTls ":4443".toList ":4443".toList
 example : established refX509 genFacts .startTls "[::1]:4443".toList "[::1]:4443".toList
     { ca := ⟨none, some (.cas ["A"])⟩ } { cert := ⟨none, some (.cert "good")⟩, key := ⟨none, some (.key "good" .plain)⟩ } = true := by decide
 
+/-! ## 4c. acceptance only via a configured trust anchor -/
+
+/-- **acceptance only via a configured anchor (client side)**: for every authority string, every verifying kind,
+    every option set that configures a CA and every oracle whose chains end in an anchor of the pool given: a
+    session established with verification on means the server certificate chains to ONE OF THE CONFIGURED CA
+    CERTIFICATES (and is valid and matches the derived name).  No other anchor - system root, cached pool,
+    another object's CA - can have vouched for it. -/
+theorem C05_auth_sound_configured_anchor (X : X509) (hX : Anchored X) (k : Kind) (hk : k ≠ .stdioTls)
+    (hostport r : Name) (co so : Opts) (hins : co.flag = false) (hca : configuredAnchors co ≠ [])
+    (he : established X genFacts k hostport r co so = true) :
+    ∃ scfg peer a, serverGetTlsConfig SA.Gen.serverAuthGuardErrNil so = .ok scfg ∧ scfg.certs.head? = some peer ∧
+      a ∈ configuredAnchors co ∧ X.chains (some [a]) peer = true ∧ X.validNow peer = true ∧
+      X.matchesName (nameFor genFacts k hostport r) peer = true := by
+  obtain ⟨_, scfg, peer, hs, hp, hch, hv, hm⟩ := C05_auth_sound_any_host X k hk hostport r co so hins he
+  cases hpool : caPool co with
+  | none =>
+    rcases (C05_ca_pool_exact co).2 hpool with h0 | ⟨e, he'⟩
+    · exact absurd h0 hca
+    · exfalso; revert hca; unfold configuredAnchors; simp [he']
+  | some pool =>
+    rw [hpool] at hch
+    obtain ⟨a, ha, hcha⟩ := hX pool peer hch
+    have := ((C05_ca_pool_exact co).1 pool hpool).1
+    exact ⟨scfg, peer, a, hs, hp, this ▸ ha, hcha, hv, hm⟩
+
+/-- **acceptance only via a configured anchor (server side)**: a server that requires client certificates and
+    configures a CA admits only a client whose certificate chains to one of the server's configured CA
+    certificates - every carrier, whatever the client configures -/
+theorem C05_auth_sound_server_configured_anchor (X : X509) (hX : Anchored X) (k : Kind) (hostport r : Name)
+    (co so : Opts) (hreq : so.flag = true) (hca : configuredAnchors so ≠ [])
+    (he : established X genFacts k hostport r co so = true) :
+    ∃ ccfg c a, clientCfgFor SA.Gen.isvSites k co = .ok ccfg ∧ ccfg.certs.head? = some c ∧
+      a ∈ configuredAnchors so ∧ X.chains (some [a]) c = true ∧ X.validNow c = true := by
+  obtain ⟨ccfg, c, hc, hcc, hch, hv⟩ := C05_auth_sound_server X k hostport r co so hreq he
+  cases hpool : caPool so with
+  | none =>
+    rcases (C05_ca_pool_exact so).2 hpool with h0 | ⟨e, he'⟩
+    · exact absurd h0 hca
+    · exfalso; revert hca; unfold configuredAnchors; simp [he']
+  | some pool =>
+    rw [hpool] at hch
+    obtain ⟨a, ha, hcha⟩ := hX pool c hch
+    have := ((C05_ca_pool_exact so).1 pool hpool).1
+    exact ⟨ccfg, c, a, hc, hcc, this ▸ ha, hcha, hv⟩
+
+/-- the reference oracle of the harness PKI satisfies the chain contract -/
+theorem C05_ref_oracle_anchored : Anchored refX509 := by
+  intro pool c h
+  simp only [refX509] at h ⊢
+  cases hl : certTable.lookup c with
+  | none => simp [hl] at h
+  | some a =>
+    simp only [hl, List.contains_iff_mem] at h
+    exact ⟨a.signer, h, by simp⟩
+
+/-- the harness cells with a peer certified by the system CA S (configured nowhere): refused wherever a CA is
+    configured on the verifying side, accepted exactly where none is (nil pool = the system store) -/
+theorem C05_system_anchor_table :
+    -- verifying client with CA A / CA B configured, server certified by S: refused; no CA configured: established
+    established refX509 genFacts .startTls "server.test:4443".toList [] { ca := caSrcOf "A" } (leafSrc "sys" {}) = false ∧
+    established refX509 genFacts .socketTls "localhost:4443".toList "127.0.0.1:4443".toList { ca := caSrcOf "B" } (leafSrc "sys" {}) = false ∧
+    established refX509 genFacts .startTls "server.test:4443".toList [] { ca := caSrcOf "-" } (leafSrc "sys" {}) = true ∧
+    established refX509 genFacts .startTls "server.test:4443".toList [] { ca := caSrcOf "-" } (leafSrc "good" {}) = false ∧
+    -- server demanding client certificates with CA A configured, client certified by S: refused; CA-less server: admitted
+    established refX509 genFacts .startTls "server.test:4443".toList [] (leafSrc "csys" { ca := caSrcOf "A" })
+      (leafSrc "good" { ca := caSrcOf "A", flag := true }) = false ∧
+    established refX509 genFacts .stdioTls [] [] (leafSrc "csys" { ca := caSrcOf "A" })
+      (leafSrc "good" { ca := caSrcOf "A", flag := true }) = false ∧
+    established refX509 genFacts .startTls "server.test:4443".toList [] (leafSrc "csys" { ca := caSrcOf "A" })
+      (leafSrc "good" { ca := caSrcOf "-", flag := true }) = true ∧
+    -- the two sides are configured with different CAs: each verifies by ITS OWN
+    established refX509 genFacts .startTls "server.test:4443".toList [] (leafSrc "cgood" { ca := caSrcOf "A" })
+      (leafSrc "good" { ca := caSrcOf "B", flag := true }) = false ∧
+    established refX509 genFacts .startTls "server.test:4443".toList [] (leafSrc "cforeign" { ca := caSrcOf "A" })
+      (leafSrc "good" { ca := caSrcOf "B", flag := true }) = true ∧
+    established refX509 genFacts .startTls "server.test:4443".toList [] { ca := caSrcOf "A" }
+      (leafSrc "untrusted" { ca := caSrcOf "B" }) = false := by
+  decide
+
+/-- the configuration `addCaCertificates` would build from a pool that already holds `seed` -/
+def seededCfg (seed : List String) (o : Opts) : TlsCfg :=
+  match addCaCertificatesFrom seed o {} with
+  | .ok c => c
+  | _ => {}
+
+/-- **witness: a pool seeded with foreign anchors**.  Had the pool started from the system store (seed = [S])
+    instead of `x509.NewCertPool()`, a client configured with CA A would accept a server certified by S and a
+    server demanding client certificates with CA A would admit a client certified by S - with the empty seed both
+    are refused.  Likewise a pool carried over from another configuration object (seed = [B]) accepts B's
+    certificates.  (Reproduced on the real code: notes/C05.md, round 5.) -/
+theorem C05_witness_seeded_pool_accepts_foreign :
+    let o : Opts := { ca := caSrcOf "A" }
+    clientAccepts refX509 { seededCfg sysAnchors o with serverName := "server.test".toList } "sys" = true ∧
+    serverAdmits refX509 { seededCfg sysAnchors o with clientAuth := .requireAndVerifyClientCert } (some "csys") = true ∧
+    clientAccepts refX509 { seededCfg ["B"] o with serverName := "server.test".toList } "untrusted" = true ∧
+    serverAdmits refX509 { seededCfg ["B"] o with clientAuth := .requireAndVerifyClientCert } (some "cforeign") = true ∧
+    clientAccepts refX509 { seededCfg [] o with serverName := "server.test".toList } "sys" = false ∧
+    serverAdmits refX509 { seededCfg [] o with clientAuth := .requireAndVerifyClientCert } (some "csys") = false ∧
+    clientAccepts refX509 { seededCfg [] o with serverName := "server.test".toList } "untrusted" = false ∧
+    clientAccepts refX509 { seededCfg [] o with serverName := "server.test".toList } "good" = true ∧
+    (seededCfg sysAnchors o).rootCAs = some ["S", "A"] ∧ (seededCfg [] o).rootCAs = some ["A"] := by
+  decide
+
+-- non-vacuity: the hypotheses of the anchor theorems are satisfiable (CA A configured, session established)
+example : configuredAnchors { ca := caSrcOf "A" } = ["A"] ∧ configuredAnchors { ca := caSrcOf "-" } = [] ∧
+    configuredAnchors { ca := ⟨some (some (.cas ["A", "B"])), some (.cas ["B"])⟩ } = ["A", "B"] := by decide
+example : established refX509 genFacts .startTls "server.test:4443".toList [] (leafSrc "cgood" { ca := caSrcOf "A" })
+    (leafSrc "good" { ca := caSrcOf "A", flag := true }) = true := by decide
+
 /-! ## 5. the UDP shared secret -/
 
 /-- both ends derive the cipher key by the same function of the password: identical pbkdf2
@@ -453,7 +659,7 @@ theorem C05_history_config (X : X509) (co : Opts) (failover : Bool) (as : List A
     | panic => simp [hcl] at hc
     | ok c0 =>
       simp only [hcl, Option.some.injEq] at hc
-      have hok := client_ok hcl
+      have hok := client_ok C05_ca_pool_shape.2.2.2 hcl
       have hkw := kindWrites_fresh genFacts a.kind a.hostport a.resolved c0 hok.2.2.1
       have hfi : forcesInsecure genFacts.sites a.kind = false := by
         cases hkk : a.kind <;> first | exact absurd hkk hk | decide
@@ -676,3 +882,11 @@ end SA.TlsConfig
 #print axioms SA.TlsConfig.C05_auth_sound_any_host
 #print axioms SA.TlsConfig.C05_port_only_refused
 #print axioms SA.TlsConfig.C05_host_form_names
+#print axioms SA.TlsConfig.C05_ca_pool_shape
+#print axioms SA.TlsConfig.C05_ca_pool_exact
+#print axioms SA.TlsConfig.C05_pools_exactly_configured
+#print axioms SA.TlsConfig.C05_auth_sound_configured_anchor
+#print axioms SA.TlsConfig.C05_auth_sound_server_configured_anchor
+#print axioms SA.TlsConfig.C05_ref_oracle_anchored
+#print axioms SA.TlsConfig.C05_system_anchor_table
+#print axioms SA.TlsConfig.C05_witness_seeded_pool_accepts_foreign
